@@ -33,8 +33,14 @@ def _case(draw):
                  'priority': draw(st.sampled_from([None, 90])), 'tags': ['specific'], 'lets': base['lets'], 'fields': []}
         pos = draw(st.integers(0, len(rf['rules'])))
         rf = dict(rf, rules=rf['rules'][:pos] + [extra] + rf['rules'][pos:])
+    txns = draw(R.txn_list(rf))
+    if draw(st.booleans()):
+        # a tag-only rule guarded by the transaction's own source written in another letter case (== ignores case)
+        src = txns[0].get('source') or 'Amex'
+        rf = dict(rf, rules=rf['rules'] + [{'name': 'Source Guard', 'match': ['and', [['cmp', ['name', 'source'], [['==', ['str', src.swapcase()]]]], ['cmp', ['name', 'amount'], [['!=', ['num', 123456]]]]]],
+                                            'category': '', 'subcategory': '', 'merchant': None, 'priority': None, 'tags': ['via-source-guard'], 'lets': [], 'fields': []}])
     n = len(rf['rules'])
-    return {'kind': 'rules', 'rf': rf, 'txns': draw(R.txn_list(rf)), 'rows': draw(lang.rows_opt),
+    return {'kind': 'rules', 'rf': rf, 'txns': txns, 'rows': draw(lang.rows_opt),
             'perm': draw(st.permutations(list(range(n)))), 'mode': draw(st.sampled_from(['first_match', 'most_specific']))}
 
 
